@@ -68,7 +68,9 @@ func judge(d *doc, what string, opKind string, k, total int, fm fmode, l label, 
 			ph = "-"
 		}
 		sig := fmt.Sprintf("read:%s:%s:%s:%c", outcomeNames[o], opKind, ph, l.kind)
-		if fm == fmOne {
+		if fm == fmPrefix {
+			sig = fmt.Sprintf("read:%s:%s:%s:%c:delivered-prefix-with-error", outcomeNames[o], opKind, ph, l.kind)
+		} else if fm == fmOne {
 			// one cause whatever the call: scanner.PeekN hands out a short view
 			// without the error its refill has just latched
 			sig = fmt.Sprintf("read:%s:one-byte-read-with-error", outcomeNames[o])
@@ -231,6 +233,88 @@ func exploreOpen(di int, d *doc, mi int) {
 			letters = append(letters, judge(d, "NewReader/"+m.name, "open", k, total, fm, labels[k-1], clean, got))
 		}
 		corrLine("impl.obs", "%s %s clean=%s rec=%s", id, dash(string(letters)), cleanClass(clean), rec)
+	}
+}
+
+// prefixGrid: the numbers of bytes a failing call may deliver before the error.
+// Thorough tier: every n; quick tier: a grid, plus the positions just before, at
+// and after the end of every structural keyword in the requested range.
+func prefixGrid(data []byte, off, length int64) []int {
+	avail := 0
+	if off >= 0 && off < int64(len(data)) {
+		avail = int(min(length, int64(len(data))-off))
+	}
+	seen := map[int]bool{}
+	var res []int
+	add := func(n int) {
+		if n >= 0 && n < avail && !seen[n] {
+			seen[n] = true
+			res = append(res, n)
+		}
+	}
+	if e.Thorough || avail <= 48 {
+		for n := 0; n < avail; n++ {
+			add(n)
+		}
+		return res
+	}
+	for n := 0; n < avail; n += 37 {
+		add(n)
+	}
+	add(avail - 1)
+	win := data[off : off+int64(avail)]
+	for _, kw := range []string{"startxref", "%%EOF", "trailer", "xref", "endobj", "endstream", " obj", "/Prev", "/Root", "%PDF-"} {
+		from := 0
+		for {
+			i := strings.Index(string(win[from:]), kw)
+			if i < 0 {
+				break
+			}
+			i += from
+			for _, n := range []int{i, i + 1, i + len(kw) - 1, i + len(kw), i + len(kw) + 1, i + len(kw) + 8} {
+				add(n)
+			}
+			from = i + 1
+		}
+	}
+	return res
+}
+
+// exploreOpenPrefix: for every ReadAt of NewReader, every delivered-prefix
+// length of the grid, the call returning those bytes together with the error.
+func exploreOpenPrefix(di int, d *doc, mi int) {
+	m := modes[mi]
+	var labels []label
+	var reqs [][2]int64
+	src := &faultSrc{data: d.data, labels: &labels, reqs: &reqs}
+	clean := guarded(watchdog, func() (string, error) {
+		r, err := openWith(src, d, m.m)
+		if err != nil {
+			return "", err
+		}
+		return metaString(r), nil
+	})
+	total := src.n
+	if clean.skipped || clean.timeout || clean.panicked != "" {
+		return
+	}
+	for k := 1; k <= total; k++ {
+		for _, n := range prefixGrid(d.data, reqs[k-1][0], reqs[k-1][1]) {
+			fs := &faultSrc{data: d.data, prefixN: n}
+			fs.arm(k, fmPrefix)
+			got := guarded(watchdog, func() (string, error) {
+				r, err := openWith(fs, d, m.m)
+				if err != nil {
+					return "", err
+				}
+				return metaString(r), nil
+			})
+			if got.skipped {
+				return
+			}
+			got.fired = fs.fired
+			judge(d, fmt.Sprintf("NewReader/%s [failing call delivers %d of %d bytes]", m.name, n, reqs[k-1][1]), "open", k, total, fmPrefix, labels[k-1], clean, got)
+		}
 	}
 }
 
@@ -462,6 +546,9 @@ func main() {
 					continue // Report mode differs from Recover only in what is recorded
 				}
 				exploreOpen(di, d, mi)
+				if si == 0 && (mi == 0 || e.Thorough) && (di < nFixed || e.Thorough) && d.bad == "" {
+					exploreOpenPrefix(di, d, mi)
+				}
 			}
 			exploreOps(di, d, e.Thorough || di < nFixed+nLook+5)
 			if !strings.Contains(d.class, "objstm") {
